@@ -16,6 +16,7 @@ def handle : List String → String
   | ["sub", a, b] => bin Hardware.sub a b
   | ["or", a, b] => bin Hardware.or a b
   | ["addsub", a, b] => bin (fun x y => x.add y >>= fun s => s.sub y) a b
+  | ["subadd", a, b] => bin (fun x y => x.sub y >>= fun s => s.add y) a b
   | ["norm", a] =>
       match parseHw a with
       | some x => resStr hwStr x.normalized
